@@ -601,6 +601,10 @@ def real_write(case):
         after = [(enc_meta(r.meta), enc_meta(r.visual)) if hasattr(r, 'visual') and r.meta is not None else None for r in regs]
         out['mutated'] = [i for i in range(len(regs)) if snap[i] != after[i]]
         try:
+            out['file'] = file_checks(text)
+        except Exception as e:
+            out['file'] = [{'ending': '?', 'what': 'harness', 'file': exc_name(e) + ': ' + str(e)[:100], 'parse': '', 'tail': ''}]
+        try:
             out['text_twice'] = Regions(regs).serialize(format='crtf', **opts)
         except Exception as e:
             out['text_twice'] = 'EXC ' + exc_name(e)
@@ -1167,10 +1171,17 @@ class Check(PropertyCheck):
     # ---------------------------------------------------------------- oracle / findings
     def oracle(self, case, real):
         if case['kind'] == 'write':
-            return oracle_write(case, real)
-        if case['kind'] == 'read':
-            return oracle_read(case, real)
-        return oracle_file(case, real)
+            V = oracle_write(case, real)
+        elif case['kind'] == 'read':
+            V = oracle_read(case, real)
+        else:
+            return oracle_file(case, real)
+        # the FILE path must give what parsing the same characters gives
+        for d in real.get('file', []):
+            V.append({'kind': 'file_read_differs',
+                      'detail': f"Regions.read of a file (ending={d['ending']!r}, suffix={d.get('suffix')!r}, format={d.get('format')!r}) "
+                                f"gives {d['file']!r}, Regions.parse of the same text gives {d['parse']!r}; end of file: {d['tail']!r}"})
+        return V
 
     def finding_match(self, f, v):
         """a violation is a known finding only if it is of the finding's kind AND the input is in its class."""
@@ -1557,12 +1568,97 @@ def gen_read_case(rng):
                        'ser_coordsys': rng.choice(SKY_FRAMES), 'ser_fmt': f'.{rng.choice([3, 4, 6, 8, 10])}f'})
 
 
+# ------------------------------------------------------------------ the FILE path: Regions.read(file) == Regions.parse(text)
+
+FILE_ENDINGS = ['none', 'nl', 'crlf', 'crlf_none', 'blank', 'trail', 'trail_none', 'tab']
+FILE_NAMES = [('.crtf', None), ('', 'crtf'), ('.crtf', 'crtf'), ('', None), ('.CRTF', None)]
+
+
+def file_variant(text, ending):
+    """the bytes of a file holding `text` (a '#CRTF' first line is what `Regions.read` requires)."""
+    if not text.startswith('#CRTF'):
+        text = '#CRTFv0\n' + text
+    body = text[:-1] if text.endswith('\n') else text
+    if ending == 'none':
+        return body                                   # no newline at the end of the file
+    if ending == 'nl':
+        return body + '\n'
+    if ending == 'crlf':
+        return (body + '\n').replace('\n', '\r\n')
+    if ending == 'crlf_none':
+        return body.replace('\n', '\r\n')
+    if ending == 'blank':
+        return body + '\n\n'                          # an empty last line
+    if ending == 'trail':
+        return body + '   \n'                         # blanks after the last line
+    if ending == 'trail_none':
+        return body + '  '
+    return body + '\t\n'
+
+
+def _outcome(f):
+    try:
+        return [canon_region(r) for r in f()]
+    except Exception as e:
+        return 'EXC ' + exc_name(e)
+
+
+def file_checks(text):
+    """read `text` through real files (two of the line-end variants, chosen by the text, always the one without a final
+    newline) and compare with Regions.parse of the same characters (universal newlines).  -> list of differences."""
+    import hashlib
+    import os
+    import tempfile
+    from regions import Regions
+    h = int(hashlib.sha1(text.encode()).hexdigest()[:8], 16)
+    endings = ['none', FILE_ENDINGS[1 + h % (len(FILE_ENDINGS) - 1)]]
+    diffs = []
+    for i, ending in enumerate(endings):
+        content = file_variant(text, ending)
+        suffix, fmt = FILE_NAMES[(h // 7 + i) % len(FILE_NAMES)]
+        ref = _outcome(lambda: Regions.parse(content.replace('\r\n', '\n'), format='crtf'))
+        fd, name = tempfile.mkstemp(suffix=suffix, prefix='c11_')
+        try:
+            with os.fdopen(fd, 'wb') as fh:
+                fh.write(content.encode('utf-8'))
+            got = _outcome(lambda: Regions.read(name, format=fmt) if fmt else Regions.read(name))
+        finally:
+            os.unlink(name)
+        if got != ref:
+            what = 'exception' if isinstance(got, str) or isinstance(ref, str) else 'regions differ'
+            k = next((j for j, (a, b) in enumerate(zip(got, ref)) if a != b), None) if what == 'regions differ' else None
+            diffs.append({'ending': ending, 'suffix': suffix, 'format': fmt, 'what': what,
+                          'file': got if isinstance(got, str) else (got[k] if k is not None else len(got)),
+                          'parse': ref if isinstance(ref, str) else (ref[k] if k is not None else len(ref)),
+                          'tail': content[-60:]})
+    # a file that does not begin with '#CRTF' is not a CRTF file
+    if h % 16 == 0:
+        raw = text.split('\n', 1)[1] if text.startswith('#CRTF') and '\n' in text else text
+        if raw.strip() and not raw.startswith('#CRTF'):
+            fd, name = tempfile.mkstemp(suffix='.crtf', prefix='c11_')
+            try:
+                with os.fdopen(fd, 'wb') as fh:
+                    fh.write(raw.encode('utf-8'))
+                got = _outcome(lambda: Regions.read(name, format='crtf'))
+            finally:
+                os.unlink(name)
+            if got != 'EXC CRTFRegionParserError':
+                diffs.append({'ending': 'no #CRTF first line', 'what': 'accepted', 'file': got if isinstance(got, str) else len(got),
+                              'parse': 'EXC CRTFRegionParserError', 'tail': raw[:60], 'suffix': '.crtf', 'format': 'crtf'})
+    return diffs
+
+
+
 def real_read(case):
     from regions import Regions
     text = render_lines(case['lines'])
     out = {'text': text}
     with warnings.catch_warnings():
         warnings.simplefilter('ignore')
+        try:
+            out['file'] = file_checks(text)
+        except Exception as e:
+            out['file'] = [{'ending': '?', 'what': 'harness', 'file': exc_name(e) + ': ' + str(e)[:100], 'parse': '', 'tail': ''}]
         try:
             parsed = Regions.parse(text, format='crtf')
         except Exception as e:
